@@ -27,90 +27,10 @@ import copy
 import hashlib
 
 from ..model import ANALYSIS, DEX, AnalysisError, walk_no_nested, calls_in
-from ..modeleval import Interp, Env, Pt, Obj, PyModel, PyRaise, NotModelled, Sink, clone_func
+from ..modeleval import Interp, Env, Pt, Obj, PyModel, PyRaise, NotModelled, Sink, clone_func, Lin
 from ..order import weak_orderings, describe
 
 LENIENT = ("loguru.logger", "logger", "logging")
-
-
-# --------------------------------------------------------------------------- symbolic linear ints
-class Lin(PyModel):
-    """c + sum(k_i * atom_i): exact linear arithmetic over symbolic non-negative ints"""
-
-    def __init__(self, terms=None, const=0):
-        self.terms = {k: v for k, v in (terms or {}).items() if v}
-        self.const = const
-
-    @staticmethod
-    def atom(name):
-        return Lin({name: 1}, 0)
-
-    @staticmethod
-    def of(x):
-        if isinstance(x, Lin):
-            return x
-        if isinstance(x, int) and not isinstance(x, bool):
-            return Lin({}, x)
-        raise NotModelled("non-linear operand %r" % (x,))
-
-    def __add__(self, o):
-        o = Lin.of(o)
-        t = dict(self.terms)
-        for k, v in o.terms.items():
-            t[k] = t.get(k, 0) + v
-        return Lin(t, self.const + o.const)
-
-    __radd__ = __add__
-
-    def __neg__(self):
-        return Lin({k: -v for k, v in self.terms.items()}, -self.const)
-
-    def __sub__(self, o):
-        return self + (-Lin.of(o))
-
-    def __rsub__(self, o):
-        return Lin.of(o) + (-self)
-
-    def __mul__(self, o):
-        if isinstance(o, Lin) and not o.terms:
-            o = o.const
-        if isinstance(o, int) and not isinstance(o, bool):
-            return Lin({k: v * o for k, v in self.terms.items()}, self.const * o)
-        raise NotModelled("non-linear product")
-
-    __rmul__ = __mul__
-
-    def __eq__(self, o):
-        try:
-            o = Lin.of(o)
-        except NotModelled:
-            return False
-        return self.terms == o.terms and self.const == o.const
-
-    def __ne__(self, o):
-        return not self == o
-
-    def __hash__(self):
-        return hash((tuple(sorted(self.terms.items())), self.const))
-
-    def _cmp(self, *a):
-        raise NotModelled("ordering comparison of symbolic linear value %s" % self)
-
-    __lt__ = __le__ = __gt__ = __ge__ = _cmp
-
-    def __bool__(self):
-        raise NotModelled("truth value of symbolic linear value %s" % self)
-
-    def __repr__(self):
-        parts = ["%s%s" % ("" if v == 1 else "%d*" % v, k) for k, v in sorted(self.terms.items())]
-        if self.const or not parts:
-            parts.append(str(self.const))
-        return " + ".join(parts).replace("+ -", "- ")
-
-    __str__ = __repr__
-
-    def __format__(self, spec):
-        return repr(self)
 
 
 class Token(PyModel):
